@@ -30,7 +30,9 @@ Cfgs2 ==
 
 MC_Cfgs ==
   {k \in (IF Part = "1d" THEN Cfgs1 ELSE Cfgs2) :
-     /\ \A a \in 1..Len(k.shapeIn) : k.offs[a] <= AbsD(k.shapeIn[a], k.shapeOut[a])
+     \* valid offsets; on an axis that does not change also the (ignored) non-zero entry 2
+     /\ \A a \in 1..Len(k.shapeIn) : \/ k.offs[a] <= AbsD(k.shapeIn[a], k.shapeOut[a])
+                                      \/ (k.shapeIn[a] = k.shapeOut[a] /\ k.offs[a] = 2)
      /\ (k.c # 0 => k.mode = "constant")
      \* 2-d: at least one axis changes
      /\ (Len(k.shapeIn) = 2 => k.shapeIn # k.shapeOut)}
